@@ -91,9 +91,9 @@ def daily_bounds_of_a_target_period(K, dst):
 
 @contract("C12", targets=[PC + "_aggregate_daily_to_regular", "irispie.dates:DailyPeriod.create_soy", "irispie.dates:DailyPeriod.create_eoy", "irispie.dates:Ranger.__init__",
                           "irispie.series.main:Series.iter_own_data_variants_from_until"],
-          instances=[(c, y) for c in (D.YearlyPeriod, D.HalfyearlyPeriod) for y in (2019, 2000, 1900)],
-          thorough=[(D.QuarterlyPeriod, y) for y in (2019, 2000, 1900)], opts={"max_paths": 3000})
-def daily_groups_are_the_slices_between_those_bounds(K, dst, year):
+          instances=[(c, y, pk) for c in (D.YearlyPeriod, D.HalfyearlyPeriod) for y in (2019, 2000, 1900) for pk in ("member", "last")],
+          thorough=[(D.QuarterlyPeriod, y, pk) for y in (2019, 2000, 1900) for pk in ("member", "last")], opts={"max_paths": 3000})
+def daily_groups_are_the_slices_between_those_bounds(K, dst, year, pick):
     """_aggregate_daily_to_regular on a daily series lying inside one calendar year: one output row per target period
     of that year, and the group handed to the aggregator for period g is, in order, the days from g.to_daily(start)
     to g.to_daily(end) (missing outside the data).  Generic projection: member j of the group."""
@@ -110,14 +110,18 @@ def daily_groups_are_the_slices_between_those_bounds(K, dst, year):
     K.assume(row_has_obs(K, data, rows - 1, 1))
     s = K.obj(Series, start=K.obj(D.DailyPeriod, serial=start), data=data, data_type=np.float64, metadata={}, __description__="")
     j = K.int("member", 0, 27)          # every target period has at least 28 days
-    picker = K.callable(lambda within: K.index(within, j))
+    picker = K.callable(lambda within: K.index(within, j if pick == "member" else -1))        # "last": the last day handed over for the period
     new_start, out = K.call(CV._aggregate_daily_to_regular, s, dst, picker)
     K.ensure("new start is the first target period of the year", K.And(K.cls_of(new_start) is dst, K.attr(new_start, "serial") == year * f))
     K.ensure("one output row per target period of the year", K.shape(out)[0] == f)
     for g in range(f):
         lo = K.attr(K.method(K.obj(dst, serial=year * f + g), "to_daily", position="start"), "serial")
-        K.ensure(f"group {g}: member j is day lo+j of the target period (NaN outside the data)",
-                 K.cell_eq(K.cell(out, g, 0), V(K, start, data, lo + j, 0)))
+        hi = K.attr(K.method(K.obj(dst, serial=year * f + g), "to_daily", position="end"), "serial")
+        if pick == "member":
+            K.ensure(f"group {g}: member j is day lo+j of the target period (NaN outside the data)", K.cell_eq(K.cell(out, g, 0), V(K, start, data, lo + j, 0)))
+        else:
+            K.ensure(f"group {g}: the last member is the last calendar day of the target period (31 December of a leap year included)",
+                     K.cell_eq(K.cell(out, g, 0), V(K, start, data, hi, 0)))
 
 
 # ------------------------------------------------------------------------------ within-group aggregators and missing values
@@ -421,6 +425,8 @@ def _arip_instances():
     out = []
     for agg in AGGS:
         out += [(agg, 2, (F, F), (T, T, T, T)), (agg, 2, (F, F, F), (T,) * 6), (agg, 4, (F, F), (T,) * 8)]
+    # multiplicative ("rate") model with a fixed autoregressive coefficient (given as a 5th item)
+    out += [("sum", 2, (F, F, F), (T,) * 6, "2"), ("mean", 4, (F, F), (T,) * 8, "1/2"), ("last", 2, (F, F), (T, F, T, T), "3/2"), ("first", 3, (F, F), (T,) * 6, "2")]
     # targets (False = a target value is given): partial coverage of a low period, a fully covered low period, both; a missing low observation
     out += [("sum", 2, (F, F), (T, F, T, T)), ("mean", 2, (F, F, F), (T, T, F, F, T, T)), ("sum", 4, (F, F), (F, T, T, T, T, F, T, T)),
             ("last", 2, (F, F, F), (T, T, F, T, F, F)), ("first", 4, (F, F), (T, T, F, T, F, F, F, F)), ("sum", 2, (F, T, F), (T,) * 6),
@@ -432,7 +438,7 @@ def _arip_instances():
                           PAR + "_create_multiplier_column", PAR + "_create_target_row", PAR + "_create_target_column", PAR + "_DiffForm.get_sigma_vector",
                           PAR + "_DiffForm.get_constant", PAR + "_get_first_last_observations"],
           instances=_arip_instances(), opts={"max_paths": 400})
-def arip_output_is_the_constrained_minimiser(K, agg, nw, low_pattern, target_pattern):
+def arip_output_is_the_constrained_minimiser(K, agg, nw, low_pattern, target_pattern, rate=None):
     """disaggregate_arip_data (additive model) for a fixed number of low periods and a fixed pattern of observed low
     values / given high-frequency targets, all VALUES symbolic: the output meets every aggregation constraint of an
     observed low period that is not fully covered by targets, hits every target exactly, and the gradient of the
@@ -445,7 +451,15 @@ def arip_output_is_the_constrained_minimiser(K, agg, nw, low_pattern, target_pat
     target = K.array_pattern("target", target_pattern)
     low0 = K.snapshot(low)
     low_freq, high_freq = 1, nw
-    out = K.call(AR.disaggregate_arip_data, [low], target, ("diff", agg), L, low_freq, high_freq)
+    if rate is None:
+        out = K.call(AR.disaggregate_arip_data, [low], target, ("diff", agg), L, low_freq, high_freq)
+    else:
+        # "rate" model x_t = rho x_{t-1} + e_t, std(e_t) = rho^t: rho is what _RateForm.get_rho derives from the data
+        # (a power of last/first); here it is FIXED by a stub so that the system stays linear - the point is the
+        # layout of the criterion, not the value of rho
+        rho = Fraction(rate)
+        out = K.stubbed(AR._RateForm.get_rho, lambda lf, hf, d: (rho if K.symbolic else float(rho)), "autoregressive coefficient of the rate model fixed per instance",
+                        lambda: K.call(AR.disaggregate_arip_data, [low], target, ("rate", agg), L, low_freq, high_freq))
     out = list(K.items(out))
     K.ensure("one output vector per variant", len(out) == 1)
     x = [K.cell(out[0], t) for t in range(H)]
@@ -464,9 +478,33 @@ def arip_output_is_the_constrained_minimiser(K, agg, nw, low_pattern, target_pat
         E.append([1 if s == t else 0 for s in range(H)])
     # constant of the additive model: average change between the first and last low observation that still constrains
     obs = constrained
-    c = 0 if len(obs) < 2 else (K.cell_val(K.cell(low0, obs[-1])) - K.cell_val(K.cell(low0, obs[0]))) / (obs[-1] - obs[0]) / nw
-    r = [xv[t + 1] - xv[t] - c for t in range(H - 1)]
-    grad = [(r[t - 1] if t >= 1 else 0) - (r[t] if t < H - 1 else 0) for t in range(H)]
+    if rate is None:
+        c = 0 if len(obs) < 2 else (K.cell_val(K.cell(low0, obs[-1])) - K.cell_val(K.cell(low0, obs[0]))) / (obs[-1] - obs[0]) / nw
+        r = [xv[t + 1] - xv[t] - c for t in range(H - 1)]
+        grad = [(r[t - 1] if t >= 1 else 0) - (r[t] if t < H - 1 else 0) for t in range(H)]
+    else:
+        # criterion sum_t ((x_t - rho x_{t-1}) / rho^t)^2 , t = 1..H-1
+        sig = [rho ** t for t in range(H)]
+        r = [(xv[t + 1] - K.frac(rho) * xv[t]) * K.frac(1 / sig[t + 1]) for t in range(H - 1)]
+        grad = [(r[t - 1] * K.frac(1 / sig[t]) if t >= 1 else 0) - (r[t] * K.frac(rho / sig[t + 1]) if t < H - 1 else 0) for t in range(H)]
     for v in nullspace(E, H):
         K.ensure(f"gradient of the smoothness criterion vanishes along the feasible direction {[str(q) for q in v]}",
                  K.real_eq(sum(K.frac(q) * g for q, g in zip(v, grad) if q != 0), 0))
+
+
+@contract("C12", targets=[PC + "_aggregate_within_data"],
+          instances=[(sel, pat) for sel in ((0, 2), (1,), (2, 0), (1, 2)) for pat in _patterns(3) if any(pat)], opts={"max_paths": 200})
+def select_addresses_calendar_positions_also_when_missing_values_are_discarded(K, select, pattern):
+    """`select` picks members by their POSITION within the period (calendar position), whether or not missing values
+    are discarded afterwards: the aggregate is taken over the selected members that are observed."""
+    w = K.array_pattern("w", pattern)
+    chosen = [i for i in select if not pattern[i]]
+    r = K.call(CV._aggregate_within_data, list(select), True, CV._AGGREGATION_METHOD_RESOLUTION["sum"], w)
+    r = K.real_cell(r) if not K.is_cell(r) else r
+    if not chosen:
+        K.ensure("no selected member is observed: missing", K.cell_is_nan(r))
+    else:
+        K.ensure("sum over the selected members that are observed", K.And(K.Not(K.cell_is_nan(r)), K.real_eq(K.cell_val(r), sum(K.cell_val(K.cell(w, i)) for i in chosen))))
+        r2 = K.call(CV._aggregate_within_data, list(select), True, CV._AGGREGATION_METHOD_RESOLUTION["first"], w)
+        r2 = K.real_cell(r2) if not K.is_cell(r2) else r2
+        K.ensure("first of the selected members that are observed", K.real_eq(K.cell_val(r2), K.cell_val(K.cell(w, chosen[0]))))
